@@ -197,6 +197,13 @@ impl<VM: VMBinding> MonotonePageResource<VM> {
         self.sync.lock().unwrap().cursor
     }
 
+    /// Verification accessor: `(cursor, sentinel, current_chunk)` of the synchronised state.
+    #[cfg(feature = "mmtk_verif")]
+    pub fn verif_sync_fields(&self) -> (Address, Address, Address) {
+        let sync = self.sync.lock().unwrap();
+        (sync.cursor, sync.sentinel, sync.current_chunk)
+    }
+
     fn log_chunk_fields(&self, space_descriptor: SpaceDescriptor, site: &str) {
         let sync = self.sync.lock().unwrap();
         debug!(
